@@ -114,6 +114,7 @@ Mut(k, p) == [k |-> k, p |-> p]
 Mutations(name, S, d) ==
   {Mut("none", "-")}
   \cup {Mut("unknown-key", t) : t \in TablesOf(S, d)}           \* a key the format does not define
+  \cup {Mut("near-miss-key", t) : t \in TablesOf(S, d)}         \* other spellings of the defined keys (aliases)
   \cup {Mut("unknown-key-in-free", t) : t \in FreeOf(S, d)}     \* inside free-form metadata: fine
   \cup {Mut("delete", p) : p \in {q \in d : Field(S, q).req}}   \* a required key removed
   \cup {Mut("retype", p) : p \in Scalars(S, d)}                 \* a value of the wrong kind
